@@ -44,8 +44,8 @@ DIM_GLOBAL = {
              ("sub/../out2.json", B)],
     "testnet": [(False, G), (True, G)],
     "paranoia": [(False, G), (True, G)],
-    "account": [(None, G), ("0", G), ("5", G), (str(H - 2), G), ("49", G), ("84", G), (str(H - 1), E), ("-1", B), ("x", B), (str(H), B)],
-    "interval": [(("0", "1"), G), (None, G), (("0", "0"), E), (("3", "1"), E), ((str(H - 1), str(H)), E), ((str(H), str(H + 1)), B),
+    "account": [(None, G), ("0", G), ("5", G), (str(H - 2), G), ("49", G), ("84", G), ("1_0", E), (" 7", E), ("+3", E), ("007", E), (str(H - 1), E), ("-1", B), ("x", B), (str(H), B)],
+    "interval": [(("0", "1"), G), (None, G), (("0", "0"), E), (("3", "1"), E), (("0_1", "0_3"), E), (("+1", " 2"), E), ((str(H - 1), str(H)), E), ((str(H), str(H + 1)), B),
                  ((str(2**32 - 3), str(2**32 - 2)), B), (("-1", "1"), B), (("a", "1"), B), (("5",), B), ((str(H - 2), str(H + 1)), B)],
 }
 
